@@ -25,9 +25,16 @@ import hashlib
 import itertools
 import os
 import time as _time
+import warnings
 
 from .core import exc_class, hx, unhx
-from .gitobj_common import gen_bytes
+from .gitobj_common import gen_bytes as _gen_bytes_plain, gen_bytes_wide
+
+
+def gen_bytes(rng):
+    """half the byte strings come from the wide generator: CR / CRLF / other line boundaries, NUL, TAB continuation lines,
+    header look-alikes, runs of newlines, ~1 kB"""
+    return gen_bytes_wide(rng) if rng.random() < 0.5 else _gen_bytes_plain(rng)
 
 ID = "C15"
 PROPS = "Props/C15.v"
@@ -53,6 +60,16 @@ RULE = ("ExtID: type strings (plain, empty, with space / newline, non-ASCII = re
         "under a second local zone too and the ids must be equal; about a quarter of the metadata dates lie within seconds / one "
         "hour / one local offset of a DST transition of the local zone (instants whose UTC wall-clock fields are a non-existent or "
         "ambiguous local time); naive datetimes (no tzinfo) must be rejected with ValueError under every zone. "
+        "Added by the dimension audit: text and byte values with CR, CRLF, VT/FF/FS/GS/RS/NEL/U+2028/U+2029 (the other line "
+        "boundaries of splitlines), TAB, NUL, header look-alikes, ~1 kB; origins that nearly start with 'swh:'; discovery dates in "
+        "the first and the last day of the datetime range (0001-01-01, 9999-12-31: first/last microsecond and second, zone chosen "
+        "so that the written fields exist); and OTHER ROUTES to the same object, three per metadata case / all per ExtID (field "
+        "routes), each of which must give the same id, the same manifest and an equal object: RawExtrinsicMetadata.from_dict on a "
+        "hand-written dictionary (unset context keys absent or None), the deprecated dictionary argument of "
+        "raw_extrinsic_metadata_git_object, the old schema with a 'type' key (for origin targets: the URL as target, expected id "
+        "sha1(url) computed with hashlib), to_dict -> from_dict without the id, evolve() from an object of another second / another "
+        "version, compute_hash() / check() / the id passed explicitly, the same instant carried by a zoneinfo.ZoneInfo tzinfo "
+        "(DST zones, fold) and by a datetime subclass, str / bytes subclasses as field values. "
         "non-trivial = at least one optional / context line; distinct = distinct case")
 TRUSTED = ["Python datetime arithmetic (aware datetime -> exact integer microseconds since the epoch, utcoffset) used to abstract a "
            "datetime as (epoch_us, offset_us)",
@@ -110,6 +127,8 @@ EPOCH_UTC = _dt.datetime(1970, 1, 1, tzinfo=_dt.timezone.utc)
 US = _dt.timedelta(microseconds=1)
 YEAR2_US = (_dt.datetime(2, 1, 1) - EPOCH_NAIVE) // US
 YEAR9998_US = (_dt.datetime(9998, 12, 31, 23, 59, 59, 999999) - EPOCH_NAIVE) // US
+MIN_US = (_dt.datetime.min - EPOCH_NAIVE) // US          # 0001-01-01T00:00:00 UTC
+MAX_US = (_dt.datetime.max - EPOCH_NAIVE) // US          # 9999-12-31T23:59:59.999999 UTC
 
 
 # ------------------------------------------------------------------ local timezone of the process
@@ -143,6 +162,12 @@ class local_tz:
             _time.tzset()
 
 
+_TZ_IANA_DST = [z for z in ["America/New_York", "Europe/London", "Australia/Lord_Howe", "Pacific/Chatham", "America/St_Johns",
+                            "Europe/Dublin", "Pacific/Apia", "America/Sao_Paulo", "Asia/Tehran", "Asia/Kolkata", "UTC"]
+                if os.path.exists(os.path.join(_ZONEINFO, z))]
+EMD_ROUTES = ["from_dict", "git_object_dict", "old_schema", "roundtrip", "evolve", "recompute", "zoneinfo", "datetime_subclass",
+              "str_bytes_subclass", "from_dict_none_keys"]
+EXTID_ROUTES = ["roundtrip", "evolve", "recompute", "str_bytes_subclass"]
 _TRANSITIONS = {}
 
 
@@ -198,7 +223,7 @@ def abstract_datetime(d):
 
 # ------------------------------------------------------------------ generators
 def gen_text(rng, kind=None):
-    kind = kind or rng.choice(["url", "empty", "nl", "nonascii", "space", "nlsp", "mixed", "trail_nl"])
+    kind = kind or rng.choice(["url", "empty", "nl", "nonascii", "space", "nlsp", "mixed", "trail_nl"] + TEXT_WIDE)
     if kind == "url":
         return rng.choice(["https://example.org/repo.git", "http://forge/a", "x"])
     if kind == "empty":
@@ -213,12 +238,28 @@ def gen_text(rng, kind=None):
         return "\n \n\n  x"
     if kind == "trail_nl":
         return "line\n"
+    if kind == "near_swh":   # only the exact prefix "swh:" is refused
+        return rng.choice(["swh", "swh;1:cnt:" + "0" * 40, "SWH:1:cnt:" + "0" * 40, " swh:1:rev:" + "1" * 40, "sw:h:", "swhid:x", "\nswh:"])
+    if kind == "cr":
+        return rng.choice(["a\rb", "\r", "x\r", "https://a/\rb"])
+    if kind == "crlf":
+        return rng.choice(["https://a/\r\nb", "l1\r\nl2\r\n", "\r\n", "a\n\rb"])
+    if kind == "seps":       # what str.splitlines() also splits on
+        return rng.choice(["a\x0bb\x0cc\x1cd\x1de\x1ef\x85g", "a\u2028b\u2029c", "x\x0c", "\x85"])
+    if kind == "tab":
+        return rng.choice(["a\tb", "a\n\tb", "\tlead"])
+    if kind == "nul":
+        return rng.choice(["a\x00b", "\x00"])
     return "".join(rng.choice("ab \né中") for _ in range(rng.randrange(1, 20)))
+
+
+TEXT_WIDE = ["cr", "crlf", "seps", "tab", "nul"]
 
 
 def gen_word(rng):
     """space-free text"""
-    return rng.choice(["1.0", "json", "sword-v2-atom-codemeta", "", "v\n2", "0.0.1-β", "x\ny\n", "pkg-info", "\n"])
+    return rng.choice(["1.0", "json", "sword-v2-atom-codemeta", "", "v\n2", "0.0.1-β", "x\ny\n", "pkg-info", "\n",
+                       "a\rb", "\r\n", "x\x0by", "\u2028", "\t", "v\x00"])
 
 
 def gen_id(rng):
@@ -264,7 +305,7 @@ def gen_emd(rng, k):
 
     def setf(f):
         if f == "origin":
-            c[f] = gen_text(rng, rng.choice(["url", "nl", "nonascii", "space", "mixed", "empty", "nlsp"]))
+            c[f] = gen_text(rng, rng.choice(["url", "nl", "nonascii", "space", "mixed", "empty", "nlsp", "near_swh"] + TEXT_WIDE))
             if c[f].startswith("swh:"):
                 c[f] = "x" + c[f]
         elif f == "visit":
@@ -310,6 +351,21 @@ def gen_emd(rng, k):
             c["near_transition"] = True
     c["date"] = [us, ZONES_US[k % len(ZONES_US)]]
     c["alts"] = gen_alts(rng, us)
+    if k % 16 == 5:
+        # the two ends of the datetime range: the first / last day, second, microsecond (zones in which the fields exist)
+        lo = k % 32 == 5
+        d = rng.choice([0, 0, 1, 999999, 10**6, 10**6 + 1, rng.randrange(86400 * 10**6)])
+        us = MIN_US + d if lo else MAX_US - d
+        zs = [z for z in ZONES_US if (z >= 0 if lo else z <= 0)]
+        sec = us // 10**6
+        same = min(max(sec * 10**6 + rng.choice([0, 1, 999999, rng.randrange(10**6)]), MIN_US), MAX_US)
+        other = rng.choice([us + 10**6, (sec + 1) * 10**6, us + 3600 * 10**6] if lo else [us - 10**6, sec * 10**6 - 1, us - 3600 * 10**6])
+        c["date"] = [us, rng.choice(zs)]
+        c["alts"] = [[us, rng.choice(zs)], [same, rng.choice(zs)], [other, rng.choice(zs)]]
+        c["range_end"] = "min" if lo else "max"
+        c.pop("near_transition", None)
+    c["routes"] = [EMD_ROUTES[(k + j * 4) % len(EMD_ROUTES)] for j in range(3)]
+    c["zi"] = _TZ_IANA_DST[k % len(_TZ_IANA_DST)] if _TZ_IANA_DST else None
     if k % 29 == 28:
         c["naive"] = True       # no tzinfo at all: must be rejected whatever the local zone
     return c
@@ -317,13 +373,14 @@ def gen_emd(rng, k):
 
 def gen_extid(rng, k):
     pm = [0, 1, 1, 0, 2, 3][k % 6]      # payload mode: none, both, half-type, half-payload
-    ptype = rng.choice(["disk-manifest", "", "p t", "n\nl", "sha1_git", "é"]) if pm in (1, 2) else None
+    ptype = rng.choice(["disk-manifest", "", "p t", "n\nl", "sha1_git", "é", "c\rr", "l\r\n", "\x0c"]) if pm in (1, 2) else None
     payload = (bytes(rng.randrange(256) for _ in range(20)) if rng.random() < 0.6 else gen_bytes(rng)).hex() if pm in (1, 3) else None
     return {"kind": "extid",
-            "type": rng.choice(["hg-nodeid", "", "a b", "with\nnewline", "é", "tyépe", "nar-sha256", "x\n", " t", "checksum-sha512"]),
+            "type": rng.choice(["hg-nodeid", "", "a b", "with\nnewline", "é", "tyépe", "nar-sha256", "x\n", " t", "checksum-sha512",
+                                "cr\rlf", "a\r\nb", "v\x0bt\x0c", "t\tab", "n\x00ul"]),
             "extid": gen_bytes(rng).hex(), "ttype": CORE[(k // 6) % 5], "tid": gen_id(rng),
             "version": rng.choice([0, 0, 1, -1, 2**70, -2**70, rng.randrange(-1000, 1000)]),
-            "ptype": ptype, "payload": payload, "tz": TZ_POOL[(k * 5 + 1) % len(TZ_POOL)]}
+            "ptype": ptype, "payload": payload, "tz": TZ_POOL[(k * 5 + 1) % len(TZ_POOL)], "routes": list(EXTID_ROUTES)}
 
 
 def gen(rng, tier):
@@ -344,7 +401,9 @@ def classify(c):
                 "extid:version=" + ("0" if c["version"] == 0 else "neg" if c["version"] < 0 else "pos"),
                 "extid:payload=" + {(False, False): "none", (True, True): "both"}.get(
                     (c["ptype"] is not None, c["payload"] is not None), "half"),
-                "extid:nl-in-extid" if b"\n" in bytes.fromhex(c["extid"]) else "extid:no-nl"]
+                "extid:nl-in-extid" if b"\n" in bytes.fromhex(c["extid"]) else "extid:no-nl"] + \
+            (["extid:cr-in-extid"] if b"\r" in bytes.fromhex(c["extid"]) else []) + \
+            (["extid:cr-in-type"] if "\r" in c["type"] else []) + ["extid:route=" + r for r in c.get("routes", [])]
     us, off = c["date"]
     ks = ["emd", "emd:target=" + c["ttype"], "emd:ctx=%d" % sum(c[f] is not None for f in CTX_ORDER),
           "emd:" + ("before-epoch" if us < 0 else "after-epoch"),
@@ -361,6 +420,17 @@ def classify(c):
         ks.append("emd:near-local-dst-transition")
     if c.get("naive"):
         ks.append("emd:naive-datetime")
+    if c.get("range_end"):
+        ks.append("emd:date-range-" + c["range_end"])
+    texts = [c["url"], c["name"], c["version"], c["format"], c["origin"] or ""]
+    if any("\r" in t for t in texts):
+        ks.append("emd:text-with-cr")
+    if any(ch in t for t in texts for ch in "\x0b\x0c\x1c\x1d\x1e\x85\u2028\u2029"):
+        ks.append("emd:text-with-other-line-boundary")
+    if b"\r" in bytes.fromhex(c["metadata"]) or c["path"] and b"\r" in bytes.fromhex(c["path"]):
+        ks.append("emd:bytes-with-cr")
+    if not c.get("naive") and not c.get("bad"):
+        ks += ["emd:route=" + r for r in c.get("routes", [])]
     return ks
 
 
